@@ -41,6 +41,7 @@ const P_MONOTONE_CHECKS: usize = 14;
 const P_TWIN_SAMPLES: usize = 15;
 const P_NEG_ZERO_TIME: usize = 16;
 const P_SWEEP_TRACES: usize = 17;
+const P_FIRST_REQUEST_FORCED: usize = 18;
 
 const EPS24: f64 = 5.960464477539063e-8; // 2^-24
 
@@ -278,6 +279,7 @@ impl Engine for GlideEngine {
         "twin_samples_compared",
         "negative_zero_time",
         "sweep_traces",
+        "first_request_after_power_on_preceded_by_far_request",
     ];
     const NFAULT: usize = 7;
     const COMPONENTS: &'static [(&'static str, &'static str)] = &[
@@ -331,11 +333,19 @@ impl Engine for GlideEngine {
             }
             Ev::SetTime(bits) => {
                 let t = f32::from_bits(*bits);
+                if ex.t_eff.is_none() && !ex.t_unknown && t.is_finite() && t >= 0.0 {
+                    // first request since power-on: which time is in effect at power-on is not specified, so the 0.05 s
+                    // rule allows this call to be swallowed if the default happens to lie next to it.  The panel task
+                    // therefore first requests a time far away: whichever default is in effect, at most one of the two
+                    // calls can fall into a dead band, and afterwards `t` is in effect under every reading.
+                    real!(ex.a.set_time(Exec::far(t)));
+                    ctx.probe(P_FIRST_REQUEST_FORCED);
+                }
                 real!(ex.a.set_time(t));
                 // does the statement's rule honour this call?
                 let mut ambiguous = false;
                 let honoured = match ex.t_eff {
-                    None => true, // nothing requested yet: the first call always takes effect
+                    None => true, // first request since power-on: made unconditional by the far request above
                     Some(te) => {
                         // "the time currently in effect" can be read as the time last requested or as that time after
                         // the documented clamps (above 10 s behaves like 10 s; below a few samples it is the fastest
